@@ -48,7 +48,7 @@ def save(R=2, C=2, K=2, with_right=True, right_conf=True, cap=30, block=()):
         if conf:
             cf = S.fresh_array(name + 'c', (R, C, K), 'f4'); col.shapes[name + 'c'] = ((R, C, K), 'f4')
             ds["confidence_measure"] = xr.DataArray(cf, dims=["row", "col", "indicator"], coords={"indicator": ["%s_ind%d" % (name, k) for k in range(K)]})
-        ds.attrs = {"crs": "CRS-" + name, "transform": "T-" + name}
+        ds.attrs = {"crs": Crs(name), "transform": "T-" + name}
         return ds, d, m, cf
 
     def h():
@@ -79,17 +79,17 @@ def save(R=2, C=2, K=2, with_right=True, right_conf=True, cap=30, block=()):
                 props.append((side + "-disparity-values-dtype-georeferencing", z3.And(
                     same(e['bands'].get(1), d, 'f4'), z3.BoolVal(str(e['kw'].get('dtype')) == 'float32' and e['kw'].get('count') == 1 and
                                                                  e['kw'].get('width') == C and e['kw'].get('height') == R and
-                                                                 e['kw'].get('crs') == "CRS-" + tag and e['kw'].get('transform') == "T-" + tag))))
+                                                                 e['kw'].get('crs') == Crs(tag) and e['kw'].get('transform') == "T-" + tag))))
             e = files.get(side + '_validity_mask.tif')
             if e:
                 props.append((side + "-validity-mask-values-dtype-georeferencing", z3.And(
-                    same(e['bands'].get(1), m, 'u2'), z3.BoolVal(str(e['kw'].get('dtype')) == 'uint16' and e['kw'].get('crs') == "CRS-" + tag and e['kw'].get('transform') == "T-" + tag))))
+                    same(e['bands'].get(1), m, 'u2'), z3.BoolVal(str(e['kw'].get('dtype')) == 'uint16' and e['kw'].get('crs') == Crs(tag) and e['kw'].get('transform') == "T-" + tag))))
             e = files.get(side + '_confidence_measure.tif')
             if e and cf is not None:
                 okb = [same(e['bands'].get(k + 1), cf[:, :, k], 'f4') if (k + 1) in e['bands'] else z3.BoolVal(False) for k in range(K)]
                 props.append((side + "-confidence-one-band-per-indicator", z3.And(
                     *okb, z3.BoolVal(list(e['descriptions'] or []) == ["%s_ind%d" % (tag, k) for k in range(K)] and e['kw'].get('count') == K and
-                                     str(e['kw'].get('dtype')) == 'float32' and e['kw'].get('crs') == "CRS-" + tag and e['kw'].get('transform') == "T-" + tag))))
+                                     str(e['kw'].get('dtype')) == 'float32' and e['kw'].get('crs') == Crs(tag) and e['kw'].get('transform') == "T-" + tag))))
         col.check_path(props, label='p%d' % len(EX.trace), extra={'save': True, 'R': R, 'C': C, 'K': K, 'with_right': with_right, 'right_conf': right_conf},
                        witnesses=[("reached", z3.BoolVal(True))])
         info['fn'] = instr.fn_hash(CM.save_results, CM.write_data_array)
@@ -113,13 +113,42 @@ def _write_pair(tmp, nan_nodata=False):
         d.write(-gmax, 1); d.write(-gmin, 2)
 
 
+class Crs:
+    """stand-in for a rasterio CRS without an EPSG code (a local / user-defined projection): compared by identity of its tag"""
+    def __init__(self, tag):
+        self.tag = tag
+
+    def __eq__(self, o):
+        return isinstance(o, Crs) and o.tag == self.tag
+
+    def __hash__(self):
+        return hash(self.tag)
+
+    def __repr__(self):
+        return 'CRS-' + self.tag
+
+    def to_epsg(self):
+        return None
+
+    def to_wkt(self):
+        return 'LOCAL_CS["%s"]' % self.tag
+
+    def to_string(self):
+        return self.to_wkt()
+
+
 VARIANTS = {
     'int-no-validation': dict(disp=[-2, 2], validation=False, invalid='default'),
     'int-validation': dict(disp=[-2, 2], validation=True, invalid='default'),
     'int-validation-nan': dict(disp=[-3, 1], validation=True, invalid='NaN'),
     'grids-validation': dict(disp='grid', validation=True, invalid='default'),
     'int-confidence-filter': dict(disp=[-2, 2], validation=False, invalid='NaN', confidence=True),
+    'int-bilateral-validation': dict(disp=[-2, 2], validation=True, invalid='default', filter='bilateral'),
 }
+
+
+class _Stop(Exception):
+    pass
 
 
 def roundtrip(variant='int-validation', cap=30, block=()):
@@ -145,19 +174,24 @@ def roundtrip(variant='int-validation', cap=30, block=()):
             pipe["cost_volume_confidence.amb"] = {"confidence_method": "ambiguity"}
         pipe["disparity"] = {"disparity_method": "wta"} if v['invalid'] == 'default' else {"disparity_method": "wta", "invalid_disparity": "NaN"}
         pipe["refinement"] = {"refinement_method": "vfit"}
-        pipe["filter"] = {"filter_method": "median", "filter_size": 3}
+        pipe["filter"] = {"filter_method": "median", "filter_size": 3} if v.get('filter') != 'bilateral' else {"filter_method": "bilateral", "sigma_space": 0.7}
         if v['validation']:
             pipe["validation"] = {"validation_method": "cross_checking_accurate"}
         cfg = {"input": inp, "pipeline": pipe}
         cfgfile = os.path.join(tmp, 'user.json'); json.dump(cfg, open(cfgfile, 'w'))
         out1 = os.path.join(tmp, 'out1')
-        pandora.main(cfgfile, out1, False)
 
         def ob(ok, name, detail=''):
             nonlocal n_ob
             n_ob += 1
             if not ok:
                 bad.append({'name': name, 'detail': str(detail)[:300], 'variant': variant})
+        try:
+            pandora.main(cfgfile, out1, False)
+            ob(True, 'command-line-run-completes')
+        except Exception as e:      # noqa: a legal configuration must run to the end (rasters AND cfg/config.json written)
+            ob(False, 'command-line-run-completes', 'pandora.main raised %r' % (e,))
+            raise _Stop()
         # products on disk == in-memory products of an independent run
         m = PandoraMachine()
         ccfg = check_conf(json.load(open(cfgfile)), m)
@@ -204,6 +238,8 @@ def roundtrip(variant='int-validation', cap=30, block=()):
                 ob(same and sorted(x for x in os.listdir(out2) if x.endswith('.tif')) == files, 'replayed-config-reproduces-the-rasters')
             except Exception as e:      # noqa
                 ob(False, 'saved-config-is-accepted-when-fed-back', repr(e))
+    except _Stop:
+        pass
     finally:
         shutil.rmtree(tmp, ignore_errors=True)
     return {'paths': 1, 'nontrivial_paths': 1, 'obligations': n_ob, 'discharged': n_ob - len(bad), 'inconclusive': [], 'queries': 0, 'solver_s': 0.0,
@@ -229,7 +265,7 @@ def replay(cex):
         if conf:
             ds["confidence_measure"] = xr.DataArray(np.array(inp[name + 'c'], np.float32).reshape(R, C, K), dims=["row", "col", "indicator"],
                                                     coords={"indicator": ["%s_ind%d" % (name, k) for k in range(K)]})
-        ds.attrs = {"crs": "CRS-" + name, "transform": "T-" + name}
+        ds.attrs = {"crs": Crs(name), "transform": "T-" + name}
         return ds
     left = mk('l', K > 0); right = mk('r', x['right_conf'] and K > 0) if x['with_right'] else xr.Dataset()
     log = []
@@ -245,14 +281,14 @@ def replay(cex):
                 bad.append('%s not written' % f); continue
             if not np.array_equal(e['bands'].get(1), ds[var].data, equal_nan=True) or str(e['kw'].get('dtype')) != dt:
                 bad.append('%s differs from the in-memory product' % f)
-            if e['kw'].get('crs') != "CRS-" + tag or e['kw'].get('transform') != "T-" + tag:
+            if e['kw'].get('crs') != Crs(tag) or e['kw'].get('transform') != "T-" + tag:
                 bad.append('%s written with georeferencing %s / %s' % (f, e['kw'].get('crs'), e['kw'].get('transform')))
         if "confidence_measure" in ds:
             e = files.get(side + '_confidence_measure.tif')
             if e is None:
                 bad.append('%s confidence not written' % side)
             else:
-                if e['kw'].get('crs') != "CRS-" + tag or e['kw'].get('transform') != "T-" + tag:
+                if e['kw'].get('crs') != Crs(tag) or e['kw'].get('transform') != "T-" + tag:
                     bad.append('%s confidence written with georeferencing %s / %s' % (side, e['kw'].get('crs'), e['kw'].get('transform')))
                 if list(e['descriptions'] or []) != list(ds["confidence_measure"]["indicator"].data):
                     bad.append('%s confidence band names %s' % (side, e['descriptions']))
